@@ -945,6 +945,13 @@ impl<'a, 'b> G<'a, 'b> {
                 self.expr(&other, 0);
                 self.out.push_str("))");
             }
+            2 if self.c.chance(110) => {
+                self.tag("generic function instantiated");
+                self.tag("call of the function with locals named like top-level functions");
+                self.out.push_str("shadow(");
+                self.expr(t, depth);
+                self.out.push(')');
+            }
             2 => {
                 self.tag("call across modules");
                 self.out.push_str("lib.same(");
@@ -1300,6 +1307,12 @@ pub fn gen_program(c: &mut Choices, f: &Features) -> Program {
         "fn keep(a: a, b: b) -> a {\n  let _ = b\n  a\n}\n\n",
         "fn apply(x: a, f: fn(a) -> b) -> b {\n  f(x)\n}\n\n",
         "fn apply_l(value x: a, with f: fn(a) -> b) -> b {\n  f(x)\n}\n\n",
+        // generic without annotations, with locals spelled like top-level functions (a local is not
+        // a call: the function must stay generalised whoever calls it)
+        "fn shadow(x) {\n  let user0 = x\n  let even = user0\n  even\n}\n\n",
+        // annotated and inferred type variables side by side
+        "fn mixed(x: a, y) {\n  let _ = x\n  y\n}\n\n",
+        "fn later(x) -> a {\n  let _ = x\n  todo\n}\n\n",
         // a recursion group whose types are determined by the bodies
         "fn even(n) {\n  case n == 0 {\n    True -> True\n    False -> odd(n - 1)\n  }\n}\n\nfn odd(n) {\n  case n == 0 {\n    True -> False\n    False -> even(n - 1)\n  }\n}\n\n",
     ];
@@ -1313,6 +1326,23 @@ pub fn gen_program(c: &mut Choices, f: &Features) -> Program {
         }
         if h.starts_with("fn identity") {
             b.push(Binder { offset: 3, name: "identity".into(), ty: T::Var("a".into()), what: "function", tags: vec!["function", "generic function"], fn_params: Some(vec![T::Var("a".into())]) });
+        }
+        if h.starts_with("fn keep") {
+            b.push(Binder { offset: 3, name: "keep".into(), ty: T::Var("a".into()), what: "function", tags: vec!["function", "generic function"], fn_params: Some(vec![T::Var("a".into()), T::Var("b".into())]) });
+        }
+        if h.starts_with("fn apply(") {
+            b.push(Binder { offset: 3, name: "apply".into(), ty: T::Var("b".into()), what: "function", tags: vec!["function", "generic function"], fn_params: Some(vec![T::Var("a".into()), T::Fn(vec![T::Var("a".into())], Box::new(T::Var("b".into())))]) });
+        }
+        if h.starts_with("fn shadow") {
+            b.push(Binder { offset: 3, name: "shadow".into(), ty: T::Var("a".into()), what: "function", tags: vec!["function", "generic function", "return type inferred", "locals named like top-level functions"], fn_params: Some(vec![T::Var("a".into())]) });
+            let o = h.find("let user0").unwrap() + 4;
+            b.push(Binder { offset: o, name: "user0".into(), ty: T::Var("a".into()), what: "let binder", tags: vec!["generic function", "locals named like top-level functions"], fn_params: None });
+        }
+        if h.starts_with("fn mixed") {
+            b.push(Binder { offset: 3, name: "mixed".into(), ty: T::Var("b".into()), what: "function", tags: vec!["function", "generic function", "annotated and inferred type variables"], fn_params: Some(vec![T::Var("a".into()), T::Var("b".into())]) });
+        }
+        if h.starts_with("fn later") {
+            b.push(Binder { offset: 3, name: "later".into(), ty: T::Var("b".into()), what: "function", tags: vec!["function", "generic function", "annotated and inferred type variables"], fn_params: Some(vec![T::Var("a".into())]) });
         }
         if h.starts_with("fn first") {
             b.push(Binder { offset: 3, name: "first".into(), ty: T::Var("a".into()), what: "function", tags: vec!["function", "generic function"], fn_params: Some(vec![T::Tuple(vec![T::Var("a".into()), T::Var("b".into())])]) });
